@@ -375,7 +375,7 @@ func part1(r *gen.Rand) {
 			return "fail"
 		}())
 	}
-	n := gen.Scale(400, 6000)
+	n := gen.Scale(400, 12000)
 	for i := 0; i < n; i++ {
 		pw := genPw(r)
 		if i%4 == 0 {
@@ -417,17 +417,17 @@ func pwBucket(n int) string {
 // ---------------------------------------------------------------- Part 2: wallet histories
 
 type hist struct {
-	e        *env
-	sign     string
-	signID   int
-	keylen   int
-	pw       string // what the harness believes the wallet's password is
-	seed     string
-	addrs    []string
-	keys     map[string][]byte
-	nlabel   int
-	lastSp   string // "", "ok", "failed"
-	nchecks  int
+	e       *env
+	sign    string
+	signID  int
+	keylen  int
+	pw      string // what the harness believes the wallet's password is
+	seed    string
+	addrs   []string
+	keys    map[string][]byte
+	nlabel  int
+	lastSp  string // "", "ok", "failed"
+	nchecks int
 }
 
 func errName(err error) string {
@@ -726,7 +726,7 @@ func main() {
 	}
 	part1(r)
 	for _, sign := range []string{"secp256k1", "ed25519", "sm2"} {
-		for k := 0; k < gen.Scale(3, 25); k++ {
+		for k := 0; k < gen.Scale(3, 50); k++ {
 			history(r, sign, 12+r.Intn(14))
 		}
 	}
